@@ -36,7 +36,8 @@ func AddStandardFilters(fd FilterDictionary) { //nolint: gocyclo
 		return value
 	})
 	fd.AddFilter("json", func(a any) any {
-		result, _ := json.Marshal(a)
+		// Drops and pointers nested in the value are written as the values they stand for
+		result, _ := json.Marshal(values.DeepToLiquid(a))
 		return result
 	})
 
@@ -284,6 +285,7 @@ func AddStandardFilters(fd FilterDictionary) { //nolint: gocyclo
 	// debugging filters
 	// inspect is from Jekyll
 	fd.AddFilter("inspect", func(value any) string {
+		value = values.DeepToLiquid(value)
 		s, err := json.Marshal(value)
 		if err != nil {
 			return fmt.Sprintf("%#v", value)
